@@ -125,6 +125,8 @@ type target struct {
 	M   map[string]string `json:"m"`
 	A   any               `json:"a"`
 	Q   string            `json:"q,string"`
+	Q2  string            `json:"q2,string"`
+	Q3  *string           `json:"q3,string"`
 	I   int               `json:"i,string"`
 	L   []string          `json:"l"`
 	K63 string            `json:"k23456789012345678901234567890123456789012345678901234567890123"`
@@ -143,7 +145,7 @@ func buildDoc(upperKeys bool, class int) string {
 	}
 	return `{` + k("s") + `:` + str + `,` + k("e") + `:"a\tb",` + k("u") + `:"A😀",` + k("n") + `:123.5e1,` + k("ns") + `:"1234567890",` + k("nq") + `:"3.25",` + k("nl") + `:[1.5,"1e3",-7],` +
 		k("r") + `: {"x": [1, "two"]} ,` + k("b") + `:"aGVsbG8gd29ybGQ=",` + k("m") + `:{"key1":` + str + `,"key2":"v2","":"e"},` +
-		k("a") + `:{"ak":[` + str + `,12,{"deep":"dv"}]},` + k("q") + `:"\"quoted\"",` + k("i") + `:` + []string{`"42"`, `"007"`, `"-0012"`, `"0"`}[class] + `,` + k("l") + `:[` + str + `,"x"],` +
+		k("a") + `:{"ak":[` + str + `,12,{"deep":"dv"}]},` + k("q") + `:"\"quoted\"",` + k("q2") + `:"\"second quoted string\"",` + k("q3") + `:"\"third\"",` + k("i") + `:` + []string{`"42"`, `"007"`, `"-0012"`, `"0"`}[class] + `,` + k("l") + `:[` + str + `,"x"],` +
 		k(key63) + `:"v63",` + k(key64) + `:"v64",` + k(key65) + `:"v65"}`
 }
 
@@ -252,6 +254,14 @@ var posts = []post{
 			var a any
 			json.NewDecoder(bytes.NewReader(otherDoc)).Decode(&a)
 		}
+	}},
+	{"Parse(other, ',string' fields)", func(h *history) {
+		var o struct {
+			A string `json:"a,string"`
+			B string `json:"b,string"`
+		}
+		json.Parse([]byte(`{"a":"\"ZZZZZZZZZZZZZZZZZZZZZZZZZZZZZZZZZZZZ\"","b":"\"YYYYYYYYYYYYYYYYYYYY\""}`), &o, json.DontCopyString)
+		json.Parse([]byte(`{"a":"\"XXXXXXXXXXXXXXXXXXXXXXXXXXXXXXXXXXXX\"","b":"\"WWWWWWWWWWWWWWWWWWWW\""}`), &o, 0)
 	}},
 	{"Tokenizer(other)", func(h *history) {
 		t := json.NewTokenizer(append([]byte{}, otherDoc...))
@@ -765,7 +775,13 @@ func lentFamily(c *explore.Ctx) {
 		dstKind = c.Choose(3)
 	}
 	seq := choosePosts(c, true)
-	overwriteAt := c.Choose(len(seq) + 2) // the caller overwrites what it lent before post number i (len+1: never)
+	// the caller overwrites what it lent before post number i (len+1: never); quick tier: at once, or never
+	overwriteAt := 0
+	if c.Thorough() {
+		overwriteAt = c.Choose(len(seq) + 2)
+	} else if c.Choose(2) == 1 {
+		overwriteAt = len(seq) + 1
+	}
 	hook.ResetAll()
 	if c.Bool() {
 		json.Marshal(otherVal) // a used buffer sits in the pool
@@ -895,7 +911,7 @@ func Spec() *explore.Spec {
 	return &explore.Spec{
 		ID: "C10",
 		Families: []*explore.Family{
-			{Name: "parse", ShardDepth: 3, Body: parseFamily, Doc: "Parse/Unmarshal of 14 target kinds (incl. maps that already hold members of the document, and documents naming a member twice) x documents (4 string classes, exact / upper-case keys incl. 63/64/65-byte keys) x all 8 subsets of the DontCopy flags (+Unmarshal) x UseNumber x every sequence of <= 2 (thorough 3) later calls from a menu of 7 (overwrite the input, Marshal, Encoder, Unmarshal, Decoder, Tokenizer on other data)"},
+			{Name: "parse", ShardDepth: 3, Body: parseFamily, Doc: "Parse/Unmarshal of 14 target kinds (incl. maps that already hold members of the document, and documents naming a member twice) x documents (4 string classes, exact / upper-case keys incl. 63/64/65-byte keys) x all 8 subsets of the DontCopy flags (+Unmarshal) x UseNumber x every sequence of <= 2 (thorough 3) later calls from a menu of 8 (overwrite the input, Marshal, Encoder, Unmarshal, Parse with ',string' fields, Decoder, Tokenizer on other data)"},
 			{Name: "decoder", ShardDepth: 3, Body: decoderFamily, Doc: "Decoder.Decode of the first value of a stream delivered so that the tail is compacted over it / the buffer is reallocated / bytes arrive one at a time / all at once, followed by the next two Decode calls and every sequence of later calls"},
 			{Name: "tokenizer", ShardDepth: 2, Body: tokenizerFamily, Doc: "Tokenizer.String results (slices of the input, or fresh slices for escaped strings) x every sequence of later calls"},
 			{Name: "encode", ShardDepth: 2, Body: encodeFamily, Doc: "Marshal / Encoder.Encode (plain writer; writer that calls the library before consuming its argument, with and without SetIndent) / Append / MarshalIndent of 12 value kinds (incl. outputs larger than a fresh pooled buffer and sorted map[string]RawMessage), with and without a used buffer in the pool, x every sequence of <= 2 (3) later calls incl. GC; Marshal repeated at the end gives the same bytes"},
